@@ -98,7 +98,7 @@ def canonical(sid_str):
     return "S-" + "-".join(str(p) for p in parts)
 
 
-def run(ctx):
+def _run(ctx):
     import dpapi_ng._security_descriptor as sd
     from dpapi_ng._blob import ProtectionDescriptor
     prelude.validate(ctx)
@@ -161,6 +161,19 @@ def run(ctx):
             ctx.count("calibration:seed_key.json")
     ctx.compare_batch(cases, nontrivial=lambda line, impl: impl.startswith("ok"))
     ctx.compare_batch(dtyp_cases, nontrivial=lambda line, impl: True)
+
+
+def run(ctx):
+    import dpapi_ng._security_descriptor as sdm, dpapi_ng._blob as bm
+    import gen
+    with gen.PurityRecorder(sdm, ["sid_to_bytes", "ace_to_bytes", "acl_to_bytes", "sd_to_bytes"]) as rec:
+        old = (bm.sd_to_bytes, bm.ace_to_bytes)
+        bm.sd_to_bytes, bm.ace_to_bytes = sdm.sd_to_bytes, sdm.ace_to_bytes        # (_blob imported the names)
+        try:
+            _run(ctx)
+        finally:
+            bm.sd_to_bytes, bm.ace_to_bytes = old
+    rec.verify(ctx, "SID / security-descriptor encoding")
 
 
 def search(ctx, broken, disagreements):
